@@ -204,6 +204,12 @@ namespace chaiscript {
         }
       }
 
+#ifdef CHAISCRIPT_VERIF
+    public:
+      /// verification hook: the folded right-hand constant this node keeps (read-only view for syntax-tree snapshots)
+      const Boxed_Value &verif_rhs() const noexcept { return m_rhs; }
+#endif
+
     private:
       Operators::Opers m_oper;
       Boxed_Value m_rhs;
@@ -673,6 +679,11 @@ namespace chaiscript {
       static bool has_this_capture(const std::vector<AST_Node_Impl_Ptr<T>> &t_children) noexcept {
         return std::any_of(std::begin(t_children), std::end(t_children), [](const auto &child) { return child->children[0]->text == "this"; });
       }
+
+#ifdef CHAISCRIPT_VERIF
+      /// verification hook: the body every function object created by this node shares (read-only view for syntax-tree snapshots)
+      const AST_Node_Impl<T> *verif_body() const noexcept { return m_lambda_node.get(); }
+#endif
 
     private:
       const std::vector<std::string> m_param_names;
